@@ -1121,6 +1121,25 @@ impl DictZipBlobStore {
 
     /// Decode Huffman O1 encoded data with configured interleaving
     fn decode_huffman_o1(&self, data: &[u8], original_size: usize) -> Result<Vec<u8>> {
+        // A stream written with 2, 4 or 8 interleaved lanes orders its symbols differently from
+        // the single-lane stream: it must be read with the factor `put` wrote it with
+        // (`config.entropy_interleaved`), not with the sequential decoder.
+        if matches!(self.config.entropy_interleaved, 2 | 4 | 8) {
+            if self.huffman_encoder.borrow().is_none() {
+                let dict = self.dictionary.read()
+                    .map_err(|_| ZiporaError::resource_busy("Dictionary read lock"))?;
+                let new_encoder = ContextualHuffmanEncoder::new(dict.data(), crate::entropy::huffman::HuffmanOrder::Order1)?;
+                *self.huffman_encoder.borrow_mut() = Some(new_encoder);
+            }
+            let binding = self.huffman_encoder.borrow();
+            let encoder = binding.as_ref().unwrap();
+            return match self.config.entropy_interleaved {
+                2 => encoder.decode_x2(data, original_size),
+                4 => encoder.decode_x4(data, original_size),
+                _ => encoder.decode_x8(data, original_size),
+            };
+        }
+
         // Get or build decoder (lazy initialization)
         if self.huffman_decoder.borrow().is_none() {
             // Build decoder from encoder - first build encoder
